@@ -7,30 +7,37 @@
 package serviceinfo
 
 //@ func serviceinfo.Devmod.Validate
+//@   params d
 //@   props C10(sweep)
 //@   sweep bounds,panic,make,nilmem,div
 
 //@ func serviceinfo.Devmod.Write
+//@   params d ctx deviceModules mtu w
 //@   props C10(sweep)
 //@   sweep bounds,panic,make,nilmem,div
 
 //@ func serviceinfo.Devmod.writeDescriptorMessages
+//@   params d w
 //@   props C10(sweep)
 //@   sweep bounds,panic,make,nilmem,div
 
 //@ func serviceinfo.Devmod.writeModuleMessages
+//@   params d modules mtu w
 //@   props C10(sweep)
 //@   sweep bounds,panic,make,nilmem,div
 
 //@ func serviceinfo.DevmodModulesChunk.MarshalCBOR
+//@   params c
 //@   props C10(sweep)
 //@   sweep bounds,panic,make,nilmem,div
 
 //@ func serviceinfo.Producer.Available
+//@   params p messageName
 //@   props C10(sweep)
 //@   sweep bounds,panic,make,nilmem,div
 
 //@ func serviceinfo.Producer.WriteChunk
+//@   params p messageName messageBody
 //@   props C10(sweep)
 //@   sweep bounds,panic,make,nilmem,div
 
